@@ -389,7 +389,9 @@ PeerConnectionMetadata::read_skip_bitfield() {
 // Same as the PCB code, but only one at a time and with the extension protocol.
 bool
 PeerConnectionMetadata::try_request_metadata_pieces() {
-  if (m_download->file_list()->chunk_size() == 1 || !m_extensions->is_remote_supported(ProtocolExtension::UT_METADATA))
+  // The peer must currently advertise a usable ut_metadata id: a request with id 0 would be an extension handshake.
+  if (m_download->file_list()->chunk_size() == 1 || !m_extensions->is_remote_supported(ProtocolExtension::UT_METADATA) ||
+      m_extensions->id(ProtocolExtension::UT_METADATA) == 0)
     return false;
 
   if (request_list()->queued_empty())
